@@ -16,7 +16,9 @@ for sid in ids:
             continue
         if subprocess.run('git status --porcelain -- pymodbus', shell=True, cwd='/repo', stdout=subprocess.PIPE, text=True).stdout.strip():
             sys.exit('/repo not clean')
-        subprocess.run(['git', 'apply', os.path.join(d, 'patch.diff')], cwd='/repo', check=True)
+        if subprocess.run(['git', 'apply', os.path.join(d, 'patch.diff')], cwd='/repo').returncode != 0:
+            miss.append(p + ' (patch no longer applies to the repaired tree)')
+            continue
         try:
             r = subprocess.run(['python3', 'check.py', p, '--tier', 'quick'], cwd=V, stdout=subprocess.PIPE, stderr=subprocess.STDOUT, text=True)
         finally:
